@@ -10,7 +10,7 @@ from .csrc import ExtractError
 
 ORDER = ["runFilter", "timerCheck", "pushSkipsStale", "popSkipsStale", "closeChecks", "procCheck", "deadlineChecks",
          "didResumeDetaches", "scheduleBumps", "canceledGuard", "sleepRounds", "hasReaderChecks", "timeoutAfterValidation",
-         "didResumeFirst", "procErrCheck", "resumeBumps"]
+         "didResumeFirst", "procErrCheck", "threadCheck", "resumeBumps"]
 
 
 def body(src, name):
@@ -140,6 +140,22 @@ def extract(tree):
     else:
         # first: unconditionally (no enclosing brace) and before the child block, i.e. before anything can return early
         c["didResumeFirst"] = k < cnc.find("if(fiber->child){") and "return" not in cnc[:k] and cnc[:k].count("{") == cnc[:k].count("}")
+    # threaded awaits (os/shell, ev/thread): the generation travels in the message and the default callback compares it
+    ta = sq(body(ev, "janet_ev_threaded_await"))
+    if "arguments.fiber=janet_root_fiber();" not in ta or "janet_ev_threaded_call(fp,arguments,janet_ev_default_threaded_callback);" not in ta:
+        raise ExtractError("janet_ev_threaded_await: not recognised")
+    tcb = sq(body(ev, "janet_ev_default_threaded_callback"))
+    k = tcb.find("switch(return_value.tag){")
+    if k < 0 or "janet_schedule(return_value.fiber," not in tcb[k:] or "janet_cancel(return_value.fiber," not in tcb[k:]:
+        raise ExtractError("janet_ev_default_threaded_callback: dispatch on the result tag not recognised")
+    recorded = "arguments.argj=janet_wrap_number((double)arguments.fiber->sched_id);" in ta and \
+        ta.find("arguments.argj=") < ta.find("janet_ev_threaded_call(")
+    m = re.search(r"intis_current=(.*?);", tcb[:k])
+    cond_ok = False
+    if m:
+        cond_ok = m.group(1) == "!janet_checktype(return_value.argj,JANET_NUMBER)||(uint32_t)janet_unwrap_number(return_value.argj)==return_value.fiber->sched_id"
+    conds = path_conditions(tcb, k + len("switch(return_value.tag){") + 1)
+    c["threadCheck"] = recorded and cond_ok and any(re.match(r"is_current&&", cd) or cd.endswith("&&is_current") or cd == "is_current" for cd in conds)
     # run phase: the generation is bumped again when the task is resumed
     c["resumeBumps"] = bool(re.search(r"if\(task\.expected_sched_id!=task\.fiber->sched_id\)continue;(?:[^;{}]*;)?task\.fiber->sched_id\+\+;"
                                       r"(?:[^;{}]*;)?JanetSignalsig=janet_continue_signal\(task\.fiber,task\.value,&res,task\.sig\);", loop1)) or \
